@@ -82,8 +82,8 @@ def make_groups(scn):
             hpc = HpcConfig(
                 hpc_type="slurm",
                 job_prefix=f"pre{gi}",
-                hpc=SlurmConfig(account=f"acct{gi}", walltime=group_walltime(g), partition=f"part{gi}",
-                                qos=("high" if gi % 2 else None)),
+                hpc=SlurmConfig(account=f"acct_{gi}", walltime=group_walltime(g), partition=f"part_{gi}-x",
+                                qos=("high_prio" if gi % 2 else None)),
             )
         sp = SubmitterParams(
             hpc_config=hpc,
